@@ -655,3 +655,55 @@ func specHandlersOK(h []errHandler) bool {
 		return !(0 <= k && k < len(h)) || (0 <= h[k].sp && h[k].sp < stackSize)
 	})
 }
+
+// ---------------------------------------------------------------------------
+// Instruction encoding (C05, C11)
+
+func specMaxOperand(width int) int {
+	switch width {
+	case 1:
+		return 255
+	case 2:
+		return 65535
+	case 4:
+		return 2147483647
+	}
+	return 0
+}
+
+func specWidthAt(op Opcode, i int) int {
+	w := OpcodeOperands[op]
+	if 0 <= i && i < len(w) {
+		return w[i]
+	}
+	return 0
+}
+
+// specOperandsOK: args fit the operand table of op (count and ranges).
+func specOperandsOK(op Opcode, args []int) bool {
+	return len(args) == len(OpcodeOperands[op]) && verifrt.Forall(func(i int) bool {
+		return !(0 <= i && i < len(args)) || (0 <= args[i] && args[i] <= specMaxOperand(specWidthAt(op, i)))
+	})
+}
+
+// specInstLen: encoded length of an instruction (opcode byte plus operands; at most two operands).
+func specInstLen(op Opcode) int {
+	return 1 + specWidthAt(op, 0) + specWidthAt(op, 1)
+}
+
+// specOperandAt: the i-th operand (i in {0,1}) decoded big-endian from ins, which starts with the opcode byte.
+func specOperandAt(ins []byte, op Opcode, i int) int {
+	off := 1
+	if i == 1 {
+		off += specWidthAt(op, 0)
+	}
+	switch specWidthAt(op, i) {
+	case 1:
+		return int(ins[off])
+	case 2:
+		return int(ins[off+1]) | int(ins[off])<<8
+	case 4:
+		return int(ins[off+3]) | int(ins[off+2])<<8 | int(ins[off+1])<<16 | int(ins[off])<<24
+	}
+	return 0
+}
